@@ -1,5 +1,6 @@
 import FqModel.JQValue
 import Proofs.C08
+import Proofs.C08Utf8
 /-!
   C08 — definitions of the side conditions and the scalar-wrapper / array level lemmas behind the
   method-level agreement theorems of Props/C08.lean.
@@ -113,25 +114,15 @@ def NotMinInt : DV → Prop
   | .scalar k sym _ => svNotMinInt (scalarValue k sym)
   | _ => True
 
-def svUtf8OK : SV → Bool → Prop
-  | .j (.str s), _ => sanitize s = s
-  | .raw bs, true => sanitize bs = bs
-  | _, _ => True
-
-/-- strings that went through `[]rune` are valid UTF-8 -/
-def Utf8OK : DV → Prop
-  | .scalar k sym y => svUtf8OK (scalarValue k sym) y
-  | _ => True
-
 theorem decodeRunes_length (bs : Bytes) : (decodeRunes bs).length = (chunks bs).length := by
   simp [decodeRunes]
 
-theorem length_sv (sv : SV) (y : Bool) (h2 : svNotMinInt sv) (h3 : svUtf8OK sv y) :
+theorem length_sv (sv : SV) (y : Bool) (h2 : svNotMinInt sv) :
     (wrapSV sv).length = funcLength Mode.real (Val.ofJV (svToValue sv y)) := by
   cases sv with
   | raw bs =>
     cases y with
-    | true => simp only [svUtf8OK] at h3; simp [funcLength, Mode.view, Mode.real, svToValue, wrapSV, G.length, Val.ofJV, h3, decodeRunes_length]
+    | true => simp [funcLength, Mode.view, Mode.real, svToValue, wrapSV, G.length, Val.ofJV, chunks_sanitize_length, decodeRunes_length]
     | false => simp [funcLength, Mode.view, Mode.real, svToValue, wrapSV, G.length, Val.ofJV, decodeRunes_length]
   | j v =>
     cases v with
@@ -139,17 +130,16 @@ theorem length_sv (sv : SV) (y : Bool) (h2 : svNotMinInt sv) (h3 : svUtf8OK sv y
     | bool b => simp [funcLength, Mode.view, Mode.real, svToValue, wrapSV, G.length, G.toGoJQ, Val.ofJV]
     | int i =>
       simp only [svNotMinInt] at h2
-      simp [funcLength, Mode.view, Mode.real, svToValue, wrapSV, G.length, G.toGoJQ, Val.ofJV, h2]
+      simp only [funcLength, Mode.view, Mode.real, svToValue, wrapSV, G.length, G.toGoJQ, Val.ofJV, if_true]
+      by_cases h0 : i ≥ 0 <;> simp [h0, h2]
     | float f => simp [funcLength, Mode.view, Mode.real, svToValue, wrapSV, G.length, G.toGoJQ, Val.ofJV]
     | str s =>
-      simp only [svUtf8OK] at h3
-      simp only [funcLength, Mode.view, Mode.real, svToValue, wrapSV, G.length, G.toGoJQ, Val.ofJV, decodeRunes_length]
-      rw [show encodeRunes (decodeRunes s) = sanitize s from rfl, h3]
-      simp
+      have := chunks_sanitize_length s
+      simp only [sanitize] at this
+      simp [funcLength, Mode.view, Mode.real, svToValue, wrapSV, G.length, G.toGoJQ, Val.ofJV, decodeRunes_length, this]
     | arr xs => simp [funcLength, Mode.view, Mode.real, svToValue, wrapSV, G.length, G.toGoJQ, Val.ofJV, ofJVs_length]
     | obj kvs => simp [funcLength, Mode.view, Mode.real, svToValue, wrapSV, G.length, G.toGoJQ, Val.ofJV, ofJVkvs_length]
 
-/-- raw bits that `tovalue` keeps as they are, are valid UTF-8 (so (D4) does not apply) -/
 def svRawOK : SV → Bool → Prop
   | .raw bs, false => sanitize bs = bs
   | _, _ => True
@@ -295,7 +285,32 @@ def InRange (s : Bytes) (i : Int) : Prop :=
   0 ≤ clampIndex (clampGoInt i) (-1) (chunks s).length ∧
     clampIndex (clampGoInt i) (-1) (chunks s).length < (chunks s).length
 
-theorem strIndex_inrange (s : Bytes) (i : Int) (h : InRange s i) :
+/-- `.[i]` on a decoded string with runes `rs` against the plain string `t`, when the rune chunks
+    of `t` correspond to `rs` -/
+theorem strIndex_gen (rs : List Nat) (t : Bytes) (i : Int) (hlen : (chunks t).length = rs.length)
+    (hch : ∀ (j : Nat) (h1 : j < rs.length) (h2 : j < (chunks t).length),
+      encodeRune (decode1 ((chunks t)[j])).1 = encodeRune (rs[j]))
+    (h : InRange t i) :
+    agree
+      (match (Outcome.ok (Val.int ↑rs.length) : Outcome Val) with
+        | .ok (.int l) =>
+          let j := clampIndex (clampGoInt i) (-1) l
+          let j := if j < 0 then -2 else if j ≥ l then -1 else j
+          strIndex rs j
+        | r => r)
+      (indexInt Mode.real (.str t) i) := by
+  obtain ⟨h1, h2⟩ := h
+  simp only [indexInt, Mode.view, Mode.real, if_true, ← hlen]
+  generalize hj : clampIndex (clampGoInt i) (-1) ↑(chunks t).length = j at h1 h2
+  have hn : j.toNat < (chunks t).length := by omega
+  have h3 : ¬ j < 0 := by omega
+  have h4 : ¬ j ≥ ↑(chunks t).length := by omega
+  have hn' : j.toNat < rs.length := by omega
+  simp only [h3, h4, if_false, strIndex, goIndex, h1, h2, decide_true, Bool.and_self, if_true,
+    List.getElem?_eq_getElem hn, List.getElem?_eq_getElem hn', Option.getD_some, agree, Val.toValue]
+  rw [hch j.toNat hn' hn]
+
+theorem strIndex_same (s : Bytes) (i : Int) (h : InRange s i) :
     agree
       (match (Outcome.ok (Val.int ↑(decodeRunes s).length) : Outcome Val) with
         | .ok (.int l) =>
@@ -303,20 +318,25 @@ theorem strIndex_inrange (s : Bytes) (i : Int) (h : InRange s i) :
           let j := if j < 0 then -2 else if j ≥ l then -1 else j
           strIndex (decodeRunes s) j
         | r => r)
-      (indexInt Mode.real (.str s) i) := by
-  obtain ⟨h1, h2⟩ := h
-  have hl : (decodeRunes s).length = (chunks s).length := by simp [decodeRunes]
-  simp only [indexInt, Mode.view, Mode.real, if_true, hl]
-  generalize hj : clampIndex (clampGoInt i) (-1) ↑(chunks s).length = j at h1 h2
-  have hn : j.toNat < (chunks s).length := by omega
-  have h3 : ¬ j < 0 := by omega
-  have h4 : ¬ j ≥ ↑(chunks s).length := by omega
-  have hn' : j.toNat < (decodeRunes s).length := by omega
-  simp only [h3, h4, if_false, strIndex, goIndex, h1, h2, decide_true, Bool.and_self, if_true,
-    List.getElem?_eq_getElem hn, List.getElem?_eq_getElem hn', Option.getD_some, agree, Val.toValue]
-  simp [decodeRunes]
+      (indexInt Mode.real (.str s) i) :=
+  strIndex_gen (decodeRunes s) s i (by simp [decodeRunes]) (by intro j h1 h2; simp [decodeRunes]) h
 
-theorem index_sv (sv : SV) (y : Bool) (i : Int) (hu : svUtf8OK sv y)
+theorem strIndex_sanitized (s : Bytes) (i : Int) (h : InRange (sanitize s) i) :
+    agree
+      (match (Outcome.ok (Val.int ↑(decodeRunes s).length) : Outcome Val) with
+        | .ok (.int l) =>
+          let j := clampIndex (clampGoInt i) (-1) l
+          let j := if j < 0 then -2 else if j ≥ l then -1 else j
+          strIndex (decodeRunes s) j
+        | r => r)
+      (indexInt Mode.real (.str (sanitize s)) i) := by
+  refine strIndex_gen (decodeRunes s) (sanitize s) i (by rw [chunks_sanitize]; simp) ?_ h
+  intro j h1 h2
+  have : (chunks (sanitize s))[j] = encodeRune ((decodeRunes s)[j]) := by
+    simp [chunks_sanitize]
+  rw [this, decode1_encodeRune_nil, encodeRune_fixRune]
+
+theorem index_sv (sv : SV) (y : Bool) (i : Int)
     (hr : ∀ s, svToValue sv y = .str s → InRange s i) :
     agree (match (wrapSV sv).sliceLen with
         | .ok (.int l) =>
@@ -329,22 +349,19 @@ theorem index_sv (sv : SV) (y : Bool) (i : Int) (hu : svUtf8OK sv y)
   | raw bs =>
     cases y with
     | true =>
-      simp only [svUtf8OK] at hu
-      have := hr bs (by simp [svToValue, hu])
-      simp only [svToValue, wrapSV, G.sliceLen, G.index, if_true, hu, Val.ofJV]
-      exact strIndex_inrange bs i this
+      have := hr (sanitize bs) (by simp [svToValue])
+      simp only [svToValue, wrapSV, G.sliceLen, G.index, if_true, Val.ofJV]
+      exact strIndex_sanitized bs i this
     | false =>
       have := hr bs (by simp [svToValue])
       simp only [svToValue, wrapSV, G.sliceLen, G.index, Val.ofJV]
-      exact strIndex_inrange bs i this
+      exact strIndex_same bs i this
   | j v =>
     cases v with
     | str s =>
-      simp only [svUtf8OK] at hu
-      have hs : encodeRunes (decodeRunes s) = s := hu
-      have := hr s (by simp [svToValue, wrapSV, G.toGoJQ, hs])
-      simp only [svToValue, wrapSV, G.sliceLen, G.index, G.toGoJQ, hs, Val.ofJV]
-      exact strIndex_inrange s i this
+      have := hr (sanitize s) (by simp [svToValue, wrapSV, G.toGoJQ, sanitize])
+      simp only [svToValue, wrapSV, G.sliceLen, G.index, G.toGoJQ, Val.ofJV]
+      exact strIndex_sanitized s i this
     | arr xs =>
       simp only [svToValue, wrapSV, G.sliceLen, G.index, G.toGoJQ, Val.ofJV, indexInt, Mode.view, Mode.real, if_true, ofJVs_length]
       generalize clampIndex (clampGoInt i) (-1) ↑xs.length = j
@@ -451,13 +468,56 @@ theorem funcSlice_scalar (k : SKind) (sym : Option JV) (y : Bool) (s e : Option 
   | err e => rfl
   | panic w => rfl
 
-theorem slice_sv (sv : SV) (y : Bool) (s e : Option Int) (hs : ¬ IsStr (svToValue sv y)) :
+theorem strSlice_ab (rs : List Nat) (t : Bytes) (a b : Int) (h0 : 0 ≤ a) (h1 : a ≤ b) (h2 : b ≤ ↑rs.length)
+    (hch : chunks t = rs.map encodeRune) :
+    agree (strSlice rs a b)
+      (.ok (.str (((chunks t).drop a.toNat).take (b.toNat - a.toNat)).flatten)) := by
+  simp only [strSlice, goSlice_ok rs a b h0 h1 h2, agree, Val.toValue, hch]
+  rw [← List.map_drop, ← List.map_take, flatten_map_encodeRune]
+
+/-- `.[a:b]` on a decoded string with runes `rs` against a plain string whose rune chunks are the
+    encodings of `rs` -/
+theorem strSlice_gen (rs : List Nat) (t : Bytes) (s e : Option Int) (hch : chunks t = rs.map encodeRune) :
+    agree
+      (match (Outcome.ok (Val.int ↑rs.length) : Outcome Val) with
+        | .ok (.int l) =>
+          strSlice rs
+            (match s with
+              | some i => clampIndex (clampGoInt i) 0 l
+              | none => 0)
+            (match e with
+              | some i => clampIndex (clampGoInt i) (match s with
+                | some i => clampIndex (clampGoInt i) 0 l
+                | none => 0) l
+              | none => l)
+        | r => r)
+      (funcSlice Mode.real (.str t) s e) := by
+  have hlen : (chunks t).length = rs.length := by rw [hch]; simp
+  simp only [funcSlice, Mode.view, Mode.real, if_true, hlen]
+  have hb := slice_bounds (↑rs.length) (by omega) s e
+  simp only at hb
+  exact strSlice_ab rs t _ _ hb.1 hb.2.1 hb.2.2 hch
+
+theorem slice_sv (sv : SV) (y : Bool) (s e : Option Int) (hr : svRawOK sv y) :
     agree (sliceSV sv s e) (funcSlice Mode.real (Val.ofJV (svToValue sv y)) s e) := by
   cases sv with
-  | raw bs => cases y <;> simp [svToValue, IsStr] at hs
+  | raw bs =>
+    cases y with
+    | true =>
+      simp only [sliceSV, svToValue, wrapSV, G.sliceLen, G.slice, if_true, Val.ofJV]
+      exact strSlice_gen (decodeRunes bs) (sanitize bs) s e (chunks_sanitize bs)
+    | false =>
+      simp only [svRawOK] at hr
+      simp only [sliceSV, svToValue, wrapSV, G.sliceLen, G.slice, Val.ofJV]
+      have : chunks bs = (decodeRunes bs).map encodeRune := by
+        conv => lhs; rw [← hr]
+        exact chunks_sanitize bs
+      exact strSlice_gen (decodeRunes bs) bs s e this
   | j v =>
     cases v with
-    | str s' => simp [svToValue, wrapSV, G.toGoJQ, IsStr] at hs
+    | str s' =>
+      simp only [sliceSV, svToValue, wrapSV, G.sliceLen, G.slice, G.toGoJQ, Val.ofJV]
+      exact strSlice_gen (decodeRunes s') (sanitize s') s e (chunks_sanitize s')
     | arr xs =>
       simp only [sliceSV, svToValue, wrapSV, G.sliceLen, G.toGoJQ, Val.ofJV, funcSlice, Mode.view, Mode.real, if_true, ofJVs_length]
       have hb := slice_bounds (↑xs.length) (by omega) s e
@@ -604,15 +664,12 @@ theorem funcToString_eq (m : Mode) (ff : UInt64 → Option Bytes) (v : Val) :
 
 theorem shallowM_struct (fs : List (Bytes × DV)) :
     (Val.dv (.struct fs)).shallowM Mode.real
-      = .obj (objOfList (objOfList (fs.map (fun f => (f.1, Val.dv f.2))))) := rfl
+      = .obj (objOfList (fs.map (fun f => (f.1, Val.dv f.2)))) := rfl
 
 theorem shallowM_array (es : List DV) :
     (Val.dv (.array es)).shallowM Mode.real = .arr (es.map Val.dv) := rfl
 
 theorem shallowM_scalar (k : SKind) (sym : Option JV) (y : Bool) :
-    (Val.dv (.scalar k sym y)).shallowM Mode.real
-      = (match Val.ofJV (wrapScalar k sym).toGoJQ with
-        | .obj kvs => .obj (objOfList kvs)
-        | w => w) := rfl
+    (Val.dv (.scalar k sym y)).shallowM Mode.real = Val.ofJV (wrapScalar k sym).toGoJQ := rfl
 
 end Proofs.C08
